@@ -54,6 +54,9 @@ def run_shape(cfg, lengths):
     from twisted.python.failure import Failure
 
     shape, kind = cfg["shape"], cfg["kind"]
+    extra = cfg.get("extra", "none")
+    has_pre = extra in ("pre", "both")
+    has_post = extra in ("post", "both")
 
     class E1(Exception):
         pass
@@ -111,7 +114,21 @@ def run_shape(cfg, lengths):
                         return x
                     return probe
 
+                def mk_pass(who, i):
+                    def extra_cb(x):
+                        obs(who, i, x)
+                        return x
+                    return extra_cb
+
+                def chained(i):
+                    # d_i's link has just returned d_(i+1): one more callback for d_(i+1), behind whatever
+                    # the chaining put there
+                    if has_post and i < n:
+                        ds[i + 1].addBoth(mk_pass("late", i + 1))
+
                 for i in range(1, n + 1):
+                    if has_pre:
+                        ds[i].addBoth(mk_pass("pre", i))
                     if shape == "S1E":
                         ds[i].addErrback(mk_link(i))
                     else:
@@ -120,12 +137,15 @@ def run_shape(cfg, lengths):
                 if shape == "S1":
                     for i in range(1, n + 1):
                         ds[i].callback(i)
+                        chained(i)
                 elif shape == "S1E":
                     for i in range(1, n + 1):
                         ds[i].errback(E2())
+                        chained(i)
                 elif shape == "S2":
                     for i in range(n, 0, -1):
                         ds[i].callback(i)
+                        chained(i)
                 else:
                     for i in range(1, n + 1):
                         ds[i].pause()
@@ -133,6 +153,7 @@ def run_shape(cfg, lengths):
                     order = range(1, n + 1) if shape == "S3" else range(n, 0, -1)
                     for i in order:
                         ds[i].unpause()
+                        chained(i)
                 ds[1].addBoth(done)
                 for i in range(2, n + 1):
                     ds[i].addErrback(lambda f: None)
@@ -194,15 +215,19 @@ def run_shape(cfg, lengths):
     return {"cfg": dict(cfg), "lengths": list(lengths), "ev": ev}
 
 
+EXTRAS = ("none", "pre", "post", "both")
+
+
 def all_shapes():
     out = []
-    for s in ("S1", "S2", "S3", "S4"):
-        for k in ("ok", "err"):
-            out.append({"shape": s, "kind": k})
-    out.append({"shape": "S1E", "kind": "err"})
-    out.append({"shape": "S6", "kind": "ok"})
+    for x in EXTRAS:
+        for s in ("S1", "S2", "S3", "S4"):
+            for k in ("ok", "err"):
+                out.append({"shape": s, "kind": k, "extra": x})
+        out.append({"shape": "S1E", "kind": "err", "extra": x})
+    out.append({"shape": "S6", "kind": "ok", "extra": "none"})
     for s in GENS:
-        out.append({"shape": s, "kind": "ok"})
+        out.append({"shape": s, "kind": "ok", "extra": "none"})
     return out
 
 
@@ -238,10 +263,10 @@ def fingerprint(t, rej):
     e = t["ev"][k] if k < len(t["ev"]) else {"e": "eof"}
     if e["e"] == "obs":
         # what differs is decided by TLC; name the observation kind that could not be matched
-        return "%s/%s obs %s" % (t["cfg"]["shape"], t["cfg"]["kind"], e["who"])
+        return "%s/%s/%s obs %s" % (t["cfg"]["shape"], t["cfg"]["kind"], t["cfg"].get("extra", "none"), e["who"])
     if e["e"] == "end":
-        return "%s/%s end exc=%s" % (t["cfg"]["shape"], t["cfg"]["kind"], e.get("exc"))
-    return "%s/%s %s" % (t["cfg"]["shape"], t["cfg"]["kind"], e["e"])
+        return "%s/%s/%s end exc=%s" % (t["cfg"]["shape"], t["cfg"]["kind"], t["cfg"].get("extra", "none"), e.get("exc"))
+    return "%s/%s/%s %s" % (t["cfg"]["shape"], t["cfg"]["kind"], t["cfg"].get("extra", "none"), e["e"])
 
 
 def report(ctx, traces, rej):
@@ -257,8 +282,8 @@ def report(ctx, traces, rej):
             if e and y["e"] == "obs" and e.get("who") == y["who"]:
                 prev = prev or y
         ctx.violation(fingerprint(t, x),
-                      "run of shape %s/%s with n=%d not explained by ChainProp.tla at event %d: %s (first observation of that kind: %s)"
-                      % (t["cfg"]["shape"], t["cfg"]["kind"], n, k, e, prev),
+                      "run of shape %s/%s (extra callbacks: %s) with n=%d not explained by ChainProp.tla at event %d: %s (first observation of that kind: %s)"
+                      % (t["cfg"]["shape"], t["cfg"]["kind"], t["cfg"].get("extra", "none"), n, k, e, prev),
                       dict(cfg=t["cfg"], lengths=t["lengths"], rejected_at=k))
 
 
@@ -283,16 +308,20 @@ def run(ctx):
     if r.ok or r.kind != "invariant":
         raise MachineryError("vacuity: the depth invariants of InlineLoop do not reject the recursive algorithm (%s)" % (r.error or "passed"))
 
-    big = ("S1", "S2", "G1", "G2", "G3", "G4")   # the property: both build orders, ok/failure, generators/coroutines
     traces = []
     for cfg in all_shapes():
+        key = (cfg["shape"], cfg["kind"], cfg["extra"])
+        plain = cfg["extra"] == "none"
         if ctx.quick:
-            lengths = [10, 100, 1000]
-            if (cfg["shape"], cfg["kind"]) in (("S1", "ok"), ("S1", "err"), ("G1", "ok")):
+            lengths = [10, 100, 1000] if plain else [7, 40, 200]
+            if key in (("S1", "ok", "none"), ("G1", "ok", "none")):
                 lengths.append(10000)
         else:
             lengths = [7, 10, 100, 1000, 10000]
-            if cfg["shape"] in big:
+            # the property: both build orders, ok/failure, generators/coroutines up to 10^5
+            if plain and cfg["shape"] in ("S1", "S2", "G1", "G2", "G3", "G4"):
+                lengths.append(100000)
+            if key in (("S1", "ok", "both"), ("S2", "err", "both"), ("S1", "err", "post")):
                 lengths.append(100000)
         traces.append(run_shape(cfg, lengths))
     ctx.exhaustive = False
